@@ -3,5 +3,12 @@
 package parser
 
 // VerifLexerStateCount returns the number of live entries in the process-global
-// lexer state map (simulation builds only).
-func VerifLexerStateCount() int { return lexerStates.Len() }
+// lexer state map (simulation builds only). It walks the map instead of trusting its
+// element counter, which drifts under concurrent Set/Del.
+func VerifLexerStateCount() int {
+	n := 0
+	for range lexerStates.Iter() {
+		n++
+	}
+	return n
+}
